@@ -108,8 +108,8 @@ def gen_case(rng, tier, big=False):
     nfiles = len(used)
     return {'spec': spec, 'driver': driver, 'runs': runs, 'nfiles': nfiles, 'attach': attach,
             'record_derivatives': dtype == 'slsqp' and rng.random() < 0.7,
-            'viewer': rng.random() < 0.8, 'real_kills': 1 if tier == 'quick' else 10,
-            'sigkills': 1 if tier == 'quick' else 10,
+            'viewer': rng.random() < 0.8, 'real_kills': 1 if tier == 'quick' else 2,
+            'sigkills': 1 if tier == 'quick' else 2,
             'seed': rng.randrange(10 ** 6)}
 
 
@@ -124,15 +124,15 @@ def gen_big(rng, tier):
     spec['init'] = {k: 2.3 for k in spec['init']}      # 17 significant digits per number in the JSON text
     return {'spec': spec, 'driver': {'type': 'none'}, 'runs': ['driver', 'driver'], 'nfiles': 1,
             'attach': {'problem': None, 'driver': 0, 'systems': {}, 'solvers': {}}, 'record_derivatives': False,
-            'viewer': False, 'real_kills': 4, 'kill_inside_txn': 4, 'sigkills': 2 if tier == 'quick' else 8,
+            'viewer': False, 'real_kills': 4, 'kill_inside_txn': 4, 'sigkills': 2 if tier == 'quick' else 3,
             'seed': rng.randrange(10 ** 6), 'big': True}
 
 
 def gen(tier, rng):
-    n = 14 if tier == 'quick' else 200
+    n = 14 if tier == 'quick' else 32
     out = [gen_case(rng, tier, big=(tier != 'quick')) for _ in range(n)]
     rb = random.Random(rng.randrange(10 ** 9))
-    return [gen_big(rb, tier) for _ in range(1 if tier == 'quick' else 3)] + out
+    return [gen_big(rb, tier) for _ in range(1 if tier == 'quick' else 2)] + out
 
 
 RULE = ('generated recorded runs (models of 1-3 components, optional groups/coupling; run_model / DOEDriver / '
@@ -179,7 +179,7 @@ def run_parallel(cases, wd, tag):
     jobs = max(1, min(core.NCPU, 8, len(cases)))
     chunks = [cases[j::jobs] for j in range(jobs)]
     with cf.ThreadPoolExecutor(max_workers=jobs) as ex:
-        futs = [ex.submit(run_impl, IMPL, ch, wd, '%s%d' % (tag, j), 1700, 1) for j, ch in enumerate(chunks)]
+        futs = [ex.submit(run_impl, IMPL, ch, wd, '%s%d' % (tag, j), 1100, 1) for j, ch in enumerate(chunks)]
         outs = [f.result() for f in futs]
     if any(o[0] is None for o in outs):
         return None, '\n'.join(o[1] for o in outs)
